@@ -13,6 +13,7 @@ var plans = map[string][]planItem{
 	"C15": {{Scenario: "c15", Quick: 3000, Thorough: 200000}},
 	"C18": {{Scenario: "c18", Quick: 3000, Thorough: 200000}},
 	"C20": {{Scenario: "c20", Quick: 3000, Thorough: 200000}},
+	"C05": {{Scenario: "c05", Quick: 2200, Thorough: 150000, PerProc: 50}},
 	"C06": {{Scenario: "c06", Quick: 3000, Thorough: 200000}},
 	"C07": {{Scenario: "c07", Quick: 1500, Thorough: 60000}},
 	"C08": {{Scenario: "c08", Quick: 4000, Thorough: 300000}},
